@@ -346,7 +346,13 @@ class ClientGenerator:
             # --- End Refactored Diff Logic ---
         else:  # This is the force=True or first-run logic
             self._log_progress("Direct generation (force=True or first run)", "DIRECT_GEN")
+            # A core embedded in this package may be re-used by other clients (core_package="<this>.core");
+            # its exception registry records their status codes and has to survive the clean-up
+            registry_path = core_dir / ".exception_registry.json"
+            saved_registry: bytes | None = None
             if out_dir.exists():
+                if registry_path.is_file() and (core_dir == out_dir or out_dir in core_dir.parents):
+                    saved_registry = registry_path.read_bytes()
                 self._log_progress(f"Removing existing directory: {out_dir}", "CLEANUP")
                 shutil.rmtree(str(out_dir))
             # Ensure parent dirs exist before creating final output dir
@@ -358,6 +364,8 @@ class ClientGenerator:
             if core_dir != out_dir:
                 core_dir.parent.mkdir(parents=True, exist_ok=True)
                 core_dir.mkdir(parents=True, exist_ok=True)  # Create final core dir
+            if saved_registry is not None:
+                registry_path.write_bytes(saved_registry)
 
             # Write root __init__.py if needed (handle nested packages like a.b.c)
             self._log_progress("Creating __init__.py files for package structure", "INIT_FILES")
